@@ -340,6 +340,11 @@ def p6_activated_membership(check: Check, rule: str = "P6") -> None:
 
 
 def p7_aggregated_membership(check: Check, rule: str = "P7") -> None:
+    """By interpretation (AG-sem, sa/rules/aggregated_sem.py); the shape rule below is the fallback."""
+    from .aggregated_sem import aggregated_semantics
+
+    if rule == "P7" and "P7" in aggregated_semantics(check, ("P7",)):
+        return
     p = check.program
     fn = p.func("Aggregated.membership")
     check.analysed(fn)
@@ -392,6 +397,11 @@ def p8_defuzzify_args(check: Check, rule: str = "P8") -> None:
 
 
 def p10_activation_degree_lookup(check: Check, rule: str = "P10") -> None:
+    """By interpretation (AG-sem, sa/rules/aggregated_sem.py); the shape rule below is the fallback."""
+    from .aggregated_sem import aggregated_semantics
+
+    if rule == "P10" and "P10" in aggregated_semantics(check, ("P10",)):
+        return
     p = check.program
     fn = p.func("Aggregated.activation_degree")
     check.analysed(fn)
